@@ -210,5 +210,8 @@ def run(chk: Check) -> None:
         run_tokenize(chk, prog, n_chars, universe(), f"U{n_chars}", remap=lambda rid: "C03.R7")
     for n_chars in (3, 4):
         run_tokenize(chk, prog, n_chars, frozenset("sgnSGNx7.+ #"), f"S{n_chars}", remap=lambda rid: "C03.R7")
+    # the value of a literal: the text-to-number conversion the parser calls (clause shared with C05)
+    from .c05 import run_literal_text
+    run_literal_text(chk, prog, "C03.R8")
     chk.exhaustive = True
     chk.max_undecided = 0
